@@ -8,7 +8,7 @@ cd /verif/kani
 cp /repo/Cargo.lock Cargo.lock
 cargo kani -Z stubbing --target-dir /verif/.cache/kani-target --only-codegen > /verif/.cache/setup_kani.log 2>&1 || { tail -30 /verif/.cache/setup_kani.log; exit 1; }
 cd /verif
-python3 mirsym/mirdump.py tx3-tir tx3-cardano tx3-resolver tx3-lang > /verif/.cache/setup_mir.log 2>&1 || { tail -30 /verif/.cache/setup_mir.log; exit 1; }
+python3 mirsym/mirdump.py tx3-tir tx3-cardano tx3-resolver tx3-lang tx3c > /verif/.cache/setup_mir.log 2>&1 || { tail -30 /verif/.cache/setup_mir.log; exit 1; }
 python3 - <<'PY'
 import subprocess
 for ovf in ("off",):
